@@ -327,6 +327,7 @@ func itemAlphabet(format string, reduced bool) []Item {
 				{URI: "/", Body: nil}, {URI: "/a?b=c&d=e", Body: []byte("a\nb"), Tag: "two words"},
 				{URI: "/", Body: []byte("1 /z"), Tag: "t"}, {URI: "/", Body: []byte("\r\n")}, {URI: "/a?b=c&d=e", Body: []byte{0, 0xff}, Tag: "t"},
 				{URI: "/", Body: []byte("[x]")},
+				{URI: "/big", Body: bytes.Repeat([]byte("0123456789abcdef"), 200), Tag: "t"}, // 3200 bytes: two of them outgrow a 4 KiB read buffer
 				{Dir: &dirAlpha[0]}, {Dir: &dirAlpha[1]}, {Dir: &dirAlpha[2]}, {Dir: &dirAlpha[4]},
 			}
 			return out
